@@ -264,7 +264,7 @@ class LinearLeastSquares(App):
                 self.pbar.set_postfix(
                     obj="{0:.2E}".format(self.objective_values[-1])
                 )
-            else:
+            elif hasattr(self.alg, "resid"):
                 self.pbar.set_postfix(
                     resid="{0:.2E}".format(
                         backend.to_device(self.alg.resid, backend.cpu_device)
